@@ -65,6 +65,22 @@ class ProgGen:
             return ["nz", v]
         return c
 
+    def selector(self, stmts):
+        """ON selector: a variable, or a converted function of it (the call must run right before the ON, after whatever precedes it on the
+        line) - sometimes with an assignment to that very variable as the preceding statement."""
+        v = self.d(st.sampled_from(["A", "B", "C"]))
+        r = self.d(st.integers(0, 5))
+        if r >= 4:
+            stmts.append(["let", ["var", v], ["bin", "+", ["var", v], ["num", "1", 1]], False])
+            self.features.add("selector_variable_assigned_just_before_on")
+        if r in (1, 4):
+            self.features.add("on_selector_converted_function")
+            return ["fn", "INT", [["var", v]]]
+        if r in (2, 5):
+            self.features.add("on_selector_converted_function")
+            return ["bin", "+", ["fn", "INT", [["bin", "/", ["bin", "*", ["var", v], ["num", "2", 2]], ["num", "2", 2]]]], ["num", "0", 0]]
+        return ["var", v]
+
     def simple(self):
         r = self.d(st.integers(0, 5))
         v = self.d(st.sampled_from(["A", "B", "C", "T"]))
@@ -224,7 +240,7 @@ class ProgGen:
             elif kind < 10 and fwd:
                 k = self.d(st.integers(1, min(3, len(fwd))))
                 targets = [("L", t) for t in self.d(st.lists(st.sampled_from(fwd), min_size=k, max_size=k))]
-                sel = ["var", self.d(st.sampled_from(["A", "B", "C"]))]
+                sel = self.selector(stmts)
                 stmts.append(["on", sel, "GOTO", targets])
                 self.features.add("on_goto")
             elif kind < 11 and self.subs:
@@ -233,7 +249,7 @@ class ProgGen:
                 else:
                     k = self.d(st.integers(1, min(3, len(self.subs))))
                     targets = [("L", t) for t in self.d(st.lists(st.sampled_from(self.subs), min_size=k, max_size=k))]
-                    stmts.append(["on", ["var", self.d(st.sampled_from(["A", "B", "C"]))], "GOSUB", targets])
+                    stmts.append(["on", self.selector(stmts), "GOSUB", targets])
                     self.features.add("on_gosub")
                 self.features.add("gosub")
             else:
